@@ -98,6 +98,10 @@ func (k Keeper) handleDoubleSign(ctx sdk.Ctx, addr crypto.Address, infractionHei
 	if err != nil {
 		panic(err)
 	}
+	if validator == nil {
+		// expired evidence, or the validator is already unstaked or removed: nothing to do
+		return
+	}
 	// We need to retrieve the stake distribution which signed the block, so we subtract ValidatorUpdateDelay from the evidence height.
 	// Note that this *can* result in a negative "distributionHeight", up to -ValidatorUpdateDelay,
 	distributionHeight := infractionHeight - sdk.ValidatorUpdateDelay
@@ -170,7 +174,9 @@ func (k Keeper) validateDoubleSign(ctx sdk.Ctx, addr crypto.Address, infractionH
 	// Get validator and signing info
 	validator = k.Validator(ctx, address)
 	if validator == nil || validator.IsUnstaked() {
-		err = types.ErrNoValidatorFound(k.Codespace())
+		// could've been unstaked (e.g. by an earlier conviction) or removed since the infraction
+		logger.Info(fmt.Sprintf("Ignored double sign from %s at height %d, validator is unstaked or no longer exists", address, infractionHeight))
+		validator = nil
 		return
 	}
 	// fetch the validator signing info
